@@ -1056,8 +1056,16 @@ def krome_reset(ctx, pkg, rule="R4"):
                 out.append(_guard_text([(c, pol)]))
         return out
     net = pkg.cls("Network")
+    import copy
+    from ..normalize import inline_context_managers
+
+    def module_level(name):
+        ci_ = pkg.classes.get(name)
+        return pkg.functions.get((NF, name)) or (ci_.node if ci_ is not None and ci_.file == NF else None)
     for mname in ("add_reaction_from_file", "add_reaction"):
-        fn = net.methods[mname]
+        # a reset that happens on ENTERING a `with` block (a context manager of the module bracketing the reading) is the reset
+        # written in front of the block
+        fn = inline_context_managers(copy.deepcopy(net.methods[mname]), module_level)
         fl = Flow(fn, NF)
         init_calls = [f for f in fl.facts if f.kind == "call" and f.target == "initialize" and f.value is not None and f.value[0] == "meth" and not f.value[3]]
         reads_lines = [n.lineno for n in ast.walk(fn) if isinstance(n, ast.Call) and ast.unparse(n.func) == "self._add_reaction"]
@@ -1086,8 +1094,24 @@ def krome_reset(ctx, pkg, rule="R4"):
                           f"the per-file reset of the format class (in `{h}`) is skipped when `{extra[0]}` does not hold: directive state (@format, @common, @var) of the previous file "
                           "decodes the next one", expected=f"{_src(recv)[:60]}.initialize() on every path that reads", found=" and ".join(extra))
                 continue
-        ok = len(init_calls) == 1 and bool(reads_lines) and init_calls[0].line < min(reads_lines)
-        ctx.check(ok, rule, f"Network.{mname}:initialize before reading", (NF, fn.lineno), "the format class is initialised before any line is parsed")
+        K = f"Network.{mname}:initialize before reading"
+        if not init_calls:
+            # positive evidence only when nothing the method uses could do the reset: a function / class of the module it names
+            # (a session object, a decorator, a wrapper) that calls initialize() somewhere is a restructuring this rule cannot follow
+            named = {n.id for n in ast.walk(fn) if isinstance(n, ast.Name)} | {n.attr for n in ast.walk(fn) if isinstance(n, ast.Attribute)}
+            hidden = sorted(x for x in named if (module_level(x) or net.methods.get(x)) is not None and (module_level(x) or net.methods.get(x)) is not net.methods[mname] and any(
+                isinstance(c, ast.Call) and isinstance(c.func, ast.Attribute) and c.func.attr == "initialize" for c in ast.walk(module_level(x) or net.methods.get(x))))
+            if hidden:
+                ctx.unrec(rule, K, (NF, fn.lineno), f"the format class is initialised inside {hidden}: order and conditions are not decided")
+            else:
+                ctx.bad(rule, K, (NF, fn.lineno), "the format class is never initialised before the lines are parsed: directive state of the previous file decodes this one",
+                        expected="rclass.initialize() before the first _add_reaction", found="no call of initialize()")
+            continue
+        if len(init_calls) > 1 or not reads_lines:
+            ctx.unrec(rule, K, (NF, fn.lineno), f"{len(init_calls)} calls of initialize() and {len(reads_lines)} parsing calls: which reset belongs to which read is not decided")
+            continue
+        ok = init_calls[0].line < min(reads_lines)
+        ctx.check(ok, rule, K, (NF, fn.lineno), "the format class is initialised before any line is parsed")
         # ... for EVERY file / string: the only condition it may depend on is that the format class exists
         if len(init_calls) == 1:
             f = init_calls[0]
